@@ -437,6 +437,7 @@ func runTier(id string, cfg PropCfg, bin, tier string, known Known, start time.T
 	wg.Wait()
 
 	outDir := filepath.Join(root, "replays-out")
+	var harnessNotes []string
 	for _, r := range results {
 		switch {
 		case r.timedOut:
@@ -444,6 +445,39 @@ func runTier(id string, cfg PropCfg, bin, tier string, known Known, start time.T
 		case r.exit == 0:
 			if r.test.Kind == "rapid" {
 				// rapid prints "OK, passed N tests" — nothing else to check; stats tell the count
+			}
+		case r.fail != nil && r.fail.Oracle == "harness":
+			// the harness could not set a case up (for instance a data-directory copy that kept racing the database's
+			// background compaction): never a verdict about the code. The case is re-executed in a fresh child: a real
+			// oracle firing there is reported, a harness failure that repeats is inconclusive, a pass is only noted.
+			_ = os.MkdirAll(outDir, 0o755)
+			dst := filepath.Join(outDir, fmt.Sprintf("%s-%s-%d-s%d-harness.json", id, r.test.Name, seed, r.shard))
+			b, _ := json.MarshalIndent(r.fail, "", " ")
+			_ = os.WriteFile(dst, b, 0o644)
+			dir := filepath.Join(work, fmt.Sprintf("harness-%s-%d", r.test.Name, r.shard))
+			_ = os.MkdirAll(dir, 0o755)
+			env := baseEnv(id, tier, seed, dir, Known{}, map[string]string{"VERIF_REPLAY": dst})
+			code, to, out := runProc(bin, []string{"-test.run", "^TestReplay$", "-test.count=1", "-test.timeout=600s"}, env, dir, 700*time.Second)
+			fl := &Failure{}
+			again := loadJSON(filepath.Join(dir, "fail.json"), fl) == nil
+			switch {
+			case !to && code != 0 && again && fl.Oracle != "harness":
+				if kf := matchKnown(known, id, fl.Sig); kf != nil {
+					knownLines = append(knownLines, fmt.Sprintf("KNOWN-FINDING: property=%s %s", id, kf.What))
+					_ = os.Remove(dst)
+					continue
+				}
+				b, _ := json.MarshalIndent(fl, "", " ")
+				_ = os.WriteFile(dst, b, 0o644)
+				violations++
+				exit = 1
+				say("VIOLATION property=%s replay=%s", id, dst)
+				say("  oracle=%s: %s", fl.Oracle, trunc(fl.Message, 600))
+			case !to && code == 0:
+				_ = os.Remove(dst)
+				harnessNotes = append(harnessNotes, fmt.Sprintf("%s shard %d: one case could not be set up (%s); it passed when re-executed; the shard stopped at that case", r.test.Name, r.shard, trunc(r.fail.Message, 160)))
+			default:
+				inconclusive = append(inconclusive, fmt.Sprintf("%s shard %d: harness failure that repeats on replay (%s): %s", r.test.Name, r.shard, dst, trunc(r.fail.Message+" / "+tail(out, 3), 400)))
 			}
 		case r.fail != nil:
 			// an oracle fired
